@@ -451,6 +451,12 @@ def run(ctx: Ctx) -> None:
         rep.rule("C14.R18", "every reachable function of an accepted module influences the signature: the class inspectors follow the base classes")
         n18 = base_classes_tracked(ctx, "C14.R18")
         rep.floor("C14.R18", n18, 1)
+    if rep.prop == "C14":
+        from .c13 import pair_keys_rule as _pkr
+        rep.rule("C14.R19", "as C13.R8: every tracked variable of an accepted module has an entry of its own in the signature (the key of the entry is built from the variable's name): "
+                            "two variables that swap their values change the signature")
+        n19 = _pkr(ctx, "C14.R19")
+        rep.floor("C14.R19", n19, 3)
     from .common import refusal_live
     rep.rule("C14.R15", "a callable of a non-accepted module handed to dds.keep / dds.eval is refused whether it is a function or a class: in both entry functions of the analysis "
                         "the resolution of the call tree's paths (the step that raises 'module not accepted') is live code")
